@@ -138,7 +138,8 @@ Fixpoint s2_stmt (x : stmt) : bool :=
   | SWith _ items b => forallb s2_with_item items && blk b
   | STry _ b hs o f => blk b && is_nil hs && blk o && blk f
   | SPass _ => true
-  | SDoc _ ex br => is_nil ex && is_nil br         (* a plain docstring / string statement: no doctest example, no {brace} *)
+  | SDoc _ _ _ => true       (* a docstring / string statement: nothing for `finder`; what its doctest examples may be is
+                                [dx_docs] below (the theorems about finder_doc / pysem_doc ask for it) *)
   | SAllAssign _ _ | SClass _ _ _ _ _ _ => false
   end.
 Definition s2_block (l : list stmt) : bool := forallb s2_stmt l.
@@ -241,7 +242,7 @@ Fixpoint s3_stmt (x : stmt) : bool :=
   | SWith _ items b => forallb s3_with_item items && blk b
   | STry _ b hs o f => blk b && is_nil hs && blk o && blk f
   | SPass _ => true
-  | SDoc _ ex br => is_nil ex && is_nil br
+  | SDoc _ _ _ => true
   | SAllAssign _ _ | SClass _ _ _ _ _ _ => false
   end.
 Definition s3_block (l : list stmt) : bool := forallb s3_stmt l.
@@ -254,3 +255,30 @@ Definition u3_top (x : stmt) : bool :=
   | _ => s3_stmt x && noimp_stmt x
   end.
 Definition u3_block (l : list stmt) : bool := forallb u3_top l.
+
+(* ---------- doctest examples (scan_for_import_issues(parse_docstrings=True), what tidy-imports runs) ----------
+   Every doctest example of every docstring of the program is an expression statement made of loads, attribute
+   accesses and operators / calls (no nested scope, no store).  {brace} identifiers are not restricted. *)
+Definition dx_stmt (x : stmt) : bool := match x with SExpr _ e => s1_expr e | _ => false end.
+Definition dx_doc (d : docstring) : bool := forallb dx_stmt (fst d).
+Definition dx_docs (p : program) : bool := forallb dx_doc (docstrings_of p).
+
+(* ---------- imports anywhere, but of the simple kind (the erasure argument of Stage2Erase needs only this) ---------- *)
+(* every import statement inside binds one-component keys and is not a __future__ import *)
+Fixpoint ui_stmt (x : stmt) : bool :=
+  let blk := fix blk (l : list stmt) : bool := match l with [] => true | y :: r => ui_stmt y && blk r end in
+  match x with
+  | SImport _ items => forallb u1_import_item items
+  | SImportFrom _ m items => not_future m && forallb s1_from_item items
+  | SDef _ _ _ _ _ body => blk body
+  | SClass _ _ _ _ _ body => blk body
+  | SFor _ _ _ b o => blk b && blk o
+  | SWhile _ _ b o => blk b && blk o
+  | SIf _ _ b o => blk b && blk o
+  | SWith _ _ b => blk b
+  | STry _ b hs o f =>
+      blk b && (fix hl (l : list handler) : bool := match l with [] => true | Handler _ _ _ hb :: r => blk hb && hl r end) hs
+      && blk o && blk f
+  | _ => true
+  end.
+Definition ui_block (l : list stmt) : bool := forallb ui_stmt l.
